@@ -1,5 +1,6 @@
 import OxiModel.Reductions
 import OxiModel.Spec.Pixel
+import OxiModel.LosslessProofs
 /-
   C01 — lossless: each reduction maps a pixel to a pixel with exactly the same 16-bit RGBA meaning.
   The theorems below are the per-pixel exactness facts ("the mapping is exact": hi==lo bytes,
@@ -128,6 +129,104 @@ theorem to_indexed_ga_pixel (pal : List Rgba) (idx : Nat) (g a : UInt8)
     (h : pal[idx]? = some ⟨g, g, g, a⟩) :
     colourOf (.indexed pal) 8 [idx] = colourOf .grayAlpha 8 [g.toNat, a.toNat] := by
   simp [colourOf, h, scaleTo16_8]
+
+/-! ### image level: the whole picture is preserved -/
+
+/-- colour-key components are below `n` (what a parsed tRNS chunk gives with `n = 65536`) -/
+def keyBelow (n : Nat) : ColorType → Prop
+  | .gray (some k) => k < n
+  | .rgb (some (r, g, b)) => r < n ∧ g < n ∧ b < n
+  | _ => True
+
+/-- 16→8, one pixel of any colour type that can have 16-bit samples, given as its high bytes. -/
+theorem depth16to8_pixel (ct : ColorType) (s : List Nat) (hs : ∀ k, s.getD k 0 < 256)
+    (hct : ct.isIndexed = false) (hkey : keyBelow 65536 ct) :
+    colourOf ct 16 (s.map fun h => h * 256 + h) = colourOf (trns16to8 ct exactKey) 8 s := by
+  have hg := getD_map_zero (fun h => h * 256 + h) (by simp) s
+  cases ct with
+  | indexed p => simp [ColorType.isIndexed] at hct
+  | gray t =>
+    have h0 := depth16to8_gray_pixel t (s.getD 0 0) (hs 0)
+      (by intro k hk; subst hk; exact hkey)
+    cases t with
+    | none => simp only [colourOf, trns16to8, hg, depth16to8_sample, Option.map_none, reduceCtorEq, if_false]
+    | some k =>
+      simp only [colourOf, trns16to8, List.getD_cons_zero] at h0
+      simp only [colourOf, trns16to8, hg]
+      exact h0
+  | grayAlpha => simp only [colourOf, trns16to8, hg, depth16to8_sample]
+  | rgba => simp only [colourOf, trns16to8, hg, depth16to8_sample]
+  | rgb t =>
+    cases t with
+    | none => simp only [colourOf, trns16to8, hg, depth16to8_sample, Option.map_none, reduceCtorEq, if_false]
+    | some k =>
+      obtain ⟨r, g, b⟩ := k
+      obtain ⟨hr, hgk, hb⟩ := hkey
+      have kr := depth16to8_key (s.getD 0 0) r (hs 0) hr
+      have kg := depth16to8_key (s.getD 1 0) g (hs 1) hgk
+      have kb := depth16to8_key (s.getD 2 0) b (hs 2) hb
+      simp only [colourOf, trns16to8, hg, depth16to8_sample, Option.map_some]
+      generalize s.getD 0 0 = a0 at *
+      generalize s.getD 1 0 = a1 at *
+      generalize s.getD 2 0 = a2 at *
+      cases er : exactKey r <;> cases eg : exactKey g <;> cases eb : exactKey b <;>
+        simp only [er, eg, eb, Option.map_none, Option.map_some, reduceCtorEq, iff_false,
+          Option.some.injEq] at kr kg kb <;>
+        simp [kr, kg, kb]
+
+/-- **16→8 is lossless for the whole image** (exact path, `scale_16 = false`): whenever the
+    reduction applies, the reduced image shows the same picture — for every size, every non-indexed
+    colour type, with or without a colour key. -/
+theorem depth16to8_lossless (i j : Img) (n : Nat)
+    (hlen : i.data.length = n * i.bppBytes)
+    (hct : i.ihdr.ct.isIndexed = false) (hkey : keyBelow 65536 i.ihdr.ct)
+    (h : reducedBitDepth16to8 i false = some j) : samePicture i j := by
+  unfold reducedBitDepth16to8 at h
+  by_cases hd : i.ihdr.depth = 16
+  · simp only [hd, ne_eq, not_true_eq_false, if_false, Bool.false_eq_true] at h
+    cases hany : ((pairs16 i.data).any fun p => p.1 ≠ p.2)
+    case true => simp only [hany, if_true, reduceCtorEq] at h
+    case false =>
+      simp only [hany, Bool.false_eq_true, if_false, Option.some.injEq] at h
+      subst h
+      have hall : ∀ p ∈ pairs16 i.data, p.1 = p.2 := by
+        intro p hp
+        have := List.any_eq_false.mp hany p hp
+        simpa using this
+      refine ⟨rfl, rfl, rfl, ?_⟩
+      have hchan' : ∀ ct, (trns16to8 ct exactKey).channels = ct.channels := by
+        intro ct; unfold trns16to8; split <;> (try split) <;> rfl
+      have hchan := hchan' i.ihdr.ct
+      have hcpos : 0 < i.ihdr.ct.channels := by cases i.ihdr.ct <;> simp [ColorType.channels]
+      have hbpp : i.bppBytes = 2 * i.ihdr.ct.channels := by
+        simp [Img.bppBytes, Img.bytesPerChannel, Img.channelsPerPixel, hd]
+      rw [hbpp] at hlen
+      obtain ⟨hch, hpx⟩ := chunks_16to8 (·.1) i.data i.ihdr.ct.channels n hcpos hlen
+      simp only [pixelColours, storagePixels, Img.bppBytes, Img.bytesPerChannel,
+        Img.channelsPerPixel, hd, if_true, hchan]
+      have h8 : ((8 : Nat) = 16) = False := by simp
+      simp only [h8, if_false, Nat.one_mul, hch, List.map_map]
+      apply List.map_congr_left
+      intro px hpxm
+      obtain ⟨_, hsub⟩ := hpx px hpxm
+      simp only [Function.comp, samplesOf, if_true, h8, if_false, List.map_map]
+      have e1 : (pairs16 px).map (fun p => p.1.toNat * 256 + p.2.toNat) =
+          ((pairs16 px).map (fun p => p.1.toNat)).map (fun h => h * 256 + h) := by
+        rw [List.map_map]
+        apply List.map_congr_left
+        intro p hp
+        simp [Function.comp, hall p (hsub p hp)]
+      rw [e1]
+      have e2 : (pairs16 px).map ((fun x => x.toNat) ∘ fun x : UInt8 × UInt8 => x.1) =
+          (pairs16 px).map (fun p => p.1.toNat) := rfl
+      rw [e2]
+      have hs : ∀ k, ((pairs16 px).map (fun p => p.1.toNat)).getD k 0 < 256 := by
+        intro k
+        have := getD_toNat_lt ((pairs16 px).map (·.1)) k
+        rw [List.map_map] at this
+        exact this
+      exact depth16to8_pixel i.ihdr.ct _ hs hct hkey
+  · simp [hd] at h
 
 /-- Non-vacuity: a concrete 16-bit keyed pixel -/
 example : colourOf (.gray (some 0x3434)) 16 [0x34 * 256 + 0x34] = ⟨0x3434, 0x3434, 0x3434, 0⟩ ∧
